@@ -1,8 +1,8 @@
 """C02 - the assembled image equals the denotation of the macro-free source.
 
-K1 sequence enumeration: every sequence of primitive statements up to depth k over 27 statement
+K1 sequence enumeration: every sequence of primitive statements up to depth k over 29 statement
 shapes (ops over literals / backward+forward labels / `$` / constants / label+-k*w, seven wflip
-forms chosen to force sharing and non-sharing, pad 1|2|4, six segment placements, four reserves)
+forms chosen to force sharing and non-sharing, pad 1|2|3|4|6, six segment placements, four reserves)
 x w in {8,16,32,64} x fjm versions. Oracle R3 (below): a two-pass denotation (addresses, labels,
 `$`; expression values by R5) + a behavioural *chain walker* that executes every wflip chain out
 of the assembled image. Impossible layouts must be rejected.
@@ -58,7 +58,7 @@ def shapes():
     wf('wf-0', first, lambda i, n: 0, None)
     wf('wf-top', first, lambda i, n: ('<<', 1, ('-', W_, 1)), None)
     wf('wf-all', first, lambda i, n: ('-', ('<<', 1, W_), 1), nxt)
-    for k in (1, 2, 4):
+    for k in (1, 2, 3, 4, 6):
         S.append((f'pad{k}', lambda i, n, k=k: ('pad', k)))
     for kind in ('adjacent', 'gap', 'overlap0', 'unaligned', 'walign', 'huge'):
         S.append((f'seg-{kind}', lambda i, n, kind=kind: ('segment', kind)))
@@ -411,7 +411,7 @@ def make_tasks(tier, seed, only=None):
             tasks.append((tier, 16, 4, (1,), p, 16, 48, seed % 48))
         # depth 4 (and 5 for a smaller core) completely over a core alphabet: the interplay pad / reserve / segment / wflip
         names = [s[0] for s in SHAPES]
-        core4 = tuple(names.index(x) for x in ('nop', 'jfwd', 'wf-own6', 'wf-14-r0', 'wf-6-r0', 'wf-all', 'pad2', 'pad4',
+        core4 = tuple(names.index(x) for x in ('nop', 'jfwd', 'wf-own6', 'wf-14-r0', 'wf-6-r0', 'wf-all', 'pad2', 'pad3', 'pad4',
                                                'seg-gap', 'seg-adjacent', 'res-2w', 'res-lazy'))
         core5 = tuple(names.index(x) for x in ('nop', 'wf-own6', 'wf-14-r0', 'pad2', 'seg-gap', 'res-2w'))
         for w in (16, 64):
